@@ -408,6 +408,19 @@ func genTime(r *rand.Rand) cliIn {
 	}
 	in.Since = B(pick2(r, goodSince))
 	in.Step = B(pick2(r, goodStep))
+	if r.Intn(10) == 0 {
+		// no --step: the default step of a range whose whole seconds differ by a multiple of 250 s while the start's fraction
+		// is the larger one (the range is a little SHORTER than that multiple)
+		sec := int64(978307200) + r.Int63n(7258118400-978307200-100000)
+		k := int64(2 + r.Intn(12))
+		ms1, ms2 := 500+r.Intn(500), r.Intn(500)
+		e := sec + 250*k
+		in.Has = []bool{true, true, false, false}
+		in.Start = &spell{Kind: "frac", T: []int{int(sec / 1000000000), int(sec % 1000000000), ms1 * 1000000}, Txt: B(fmt.Sprintf("%d.%03d", sec, ms1))}
+		in.End = &spell{Kind: "frac", T: []int{int(e / 1000000000), int(e % 1000000000), ms2 * 1000000}, Txt: B(fmt.Sprintf("%d.%03d", e, ms2))}
+		in.Now = []int{int((e + 5) / 1000000000), int((e + 5) % 1000000000), 0}
+		return in
+	}
 	switch r.Intn(8) {
 	case 0:
 		in.Has[0] = true
